@@ -2,4 +2,4 @@
    nat, positive and Z stay the extracted inductive types. *)
 From Coq Require Import Extraction ExtrOcamlBasic ExtrOcamlNativeString.
 From NV Require Import Delayed.Model Delayed.Spec.
-Extraction "c08_model.ml" run run_dom program force eval reaches reaches_arg reach_table.
+Extraction "c08_model.ml" run run_dom run_stack run_concat program force eval reaches reaches_arg reach_table.
